@@ -2,6 +2,7 @@ use crate::cell::Cell;
 use crate::line::Line;
 use crate::pen::Pen;
 use std::cmp::Ordering;
+use std::collections::VecDeque;
 use std::ops::{Index, IndexMut, Range};
 
 #[derive(Debug)]
@@ -490,6 +491,7 @@ where
     pub iter: I,
     pub cols: usize,
     pub rest: Option<Line>,
+    pub rows: VecDeque<Line>,
 }
 
 pub(crate) fn reflow<I: Iterator<Item = Line>>(iter: I, cols: usize) -> Vec<Line> {
@@ -497,6 +499,7 @@ pub(crate) fn reflow<I: Iterator<Item = Line>>(iter: I, cols: usize) -> Vec<Line
         iter,
         cols,
         rest: None,
+        rows: VecDeque::new(),
     }
     .collect();
 
@@ -511,10 +514,16 @@ impl<I: Iterator<Item = Line>> Iterator for Reflow<I> {
     fn next(&mut self) -> Option<Self::Item> {
         use std::cmp::Ordering::*;
 
+        if let Some(line) = self.rows.pop_front() {
+            return Some(line);
+        }
+
         while let Some(mut line) = self.rest.take().or_else(|| self.iter.next()) {
             match self.cols.cmp(&line.len()) {
                 Less => {
-                    self.rest = line.contract(self.cols);
+                    let mut rows = line.contract(self.cols);
+                    self.rest = rows.pop();
+                    self.rows = rows.into();
                     return Some(line);
                 }
 
